@@ -23,7 +23,7 @@ MIXED = 'from other import of\n\n\ndef mx(x):\n    return of(x) + 1\n'
 KLASS = ('class HK2:\n    def plain(self, x):\n        return x\n\n    @staticmethod\n    def st(x):\n        return x\n\n    @classmethod\n    def cl(cls, x):\n        return x\n\n'
          '    @property\n    def pr(self):\n        return 1\n\n\ndef kfree(x):\n    return x\n')
 SELECTIONS = [['helper'], ['PATH:helper.py'], ['pkgk'], ['PATH:pkgk'], ['pkgk.sib'], ['pkgk.sub'], ['helper.hf'], ['helper.HK'], ['other'], ['helper,other'],
-              ['helper', 'pkgk.sub.deep'], ['mixed'], ['klass'], ['klass.HK2'], ['PATH:prog.py'], ['nosuchmod'], ['PATH:does/not/exist.py'], ['pkgkx'], ['pk']]
+              ['helper', 'pkgk.sub.deep'], ['mixed'], ['klass'], ['klass.HK2'], ['PATH:prog.py'], ['nosuchmod'], ['PATH:does/not/exist.py'], ['pkgkx'], ['pk'], ['helpe'], ['pkg']]
 EXTRA_IMPORTS = [('import mixed', 'mixed.mx(1)'), ('from mixed import mx', 'mx(2)'), ('import klass', 'klass.kfree(1)'), ('from klass import HK2', 'HK2().plain(1)')]
 
 
@@ -182,6 +182,34 @@ def run(ctx):
                 res[i + j * nw] = r
         return res
     rex, rsy, rrg = gather('extract', len(cases)), gather('synthetic_match', len(synth)), gather('register', len(regs))
+    # ---- the names a selected package expands to, against the layout: the selection itself plus the dotted name of every module file and
+    # (sub-)package directory below it, as the import system names them from the script's directory
+    pkg_dirs = {'pkgk': 'pkgk', 'pkgk.sub': 'pkgk/sub', 'pkgk.sub.dpkg': 'pkgk/sub/dpkg'}
+    for c, r in zip(cases, rex):
+        if 'M' not in r:
+            continue
+        for sel in c['prof_mod']:
+            name = {'PATH:pkgk': 'pkgk', 'PATH:pkgk/sub': 'pkgk.sub'}.get(sel, sel)
+            if name not in pkg_dirs:
+                continue
+            below, subpkgs = set(), set()
+            for rel in c['files']:
+                if rel.startswith(pkg_dirs[name] + '/') and rel.endswith('.py'):
+                    parts = rel[:-3].split('/')
+                    if parts[-1] == '__init__':
+                        parts = parts[:-1]
+                        subpkgs.add('.'.join(parts))
+                    below.add('.'.join(parts))
+            got = set(r['M'])
+            missing = (below | {name}) - got
+            extra = [x for x in got if x not in below and x not in [y if not y.startswith('PATH:') else name for y in c['prof_mod']]]
+            if missing or extra:
+                # recorded finding F-C09b: the names of the sub-packages themselves are not among the names to profile
+                cls = 'F-C09b' if not extra and missing <= subpkgs else None
+                ctx.fail('a selected package does not expand to the names of the modules below it',
+                         {'finding_class': cls, 'prof_mod': c['prof_mod'], 'names_to_profile': sorted(got), 'modules_below_the_selection': sorted(below | {name}),
+                          'missing': sorted(missing), 'unexpected': sorted(extra)})
+                break
     kdiff = 0
     if getattr(ctx, 'driver_ok', True):
         lines = []
@@ -247,6 +275,10 @@ def run(ctx):
               crafted([('from pkgk.sub import dpkg', 'dpkg.dpf(1)'), ('from pkgk import sib', 'sib.sf(1)')], ['pkgk']),
               crafted([('from klass import HK2', 'HK2().plain(1)'), ('import klass', 'klass.kfree(2)')], ['klass']),
               crafted([('from helper import hf as h2, hg', 'h2(1) + hg(2)'), ('from helper import HK', 'HK().hm(1)')], ['PATH:helper.py']),
+              crafted([('from pkgk.sub.deep import df', 'df(1)'), ('from pkgk.sub import deep as dp', 'dp.df(2)')], ['pkgk.sub']),
+              # look-alike selections: a name that is an imported name minus its last character(s) selects nothing
+              crafted([('import helper', 'helper.hf(1)'), ('import pkgk', 'pkgk.sf(1)'), ('import other as ot', 'ot.of(1)')], ['helpe', 'pkg', 'othe']),
+              crafted([('from pkgk.sub.deep import df', 'df(1)')], ['PATH:pkgk/sub']),
               # the script itself, with definitions nested inside an explicitly decorated function and inside an undecorated one
               crafted([], ['PATH:prog.py'], defs=[('@profile\ndef deco_outer(n):\n    def deco_inner(j):\n        return j + 1\n\n    class Local:\n        def meth(self, a):\n            return a * 2\n'
                         '    return deco_inner(n) + Local().meth(n)\n\n\ndef plain_outer(n):\n    def plain_inner(j):\n        return j - 1\n    return plain_inner(n)\n',
@@ -265,7 +297,7 @@ def run(ctx):
             for part in (s.split(',') if not s.startswith('PATH:') else [s]):
                 if part.startswith('PATH:'):
                     rel = part[5:]
-                    sel_names.append({'helper.py': 'helper', 'pkgk': 'pkgk', 'prog.py': '__script__'}.get(rel, '__nothing__'))
+                    sel_names.append({'helper.py': 'helper', 'pkgk': 'pkgk', 'pkgk/sub': 'pkgk.sub', 'prog.py': '__script__'}.get(rel, '__nothing__'))
                 else:
                     sel_names.append(part)
         selected_files, should = expectation(c['prog'], c['files'], [s for s in sel_names if not s.startswith('__')])
